@@ -1,13 +1,13 @@
 package main
 
 import (
-	"time"
 	"errors"
 	"fmt"
 	"io"
 	"net/netip"
 	"sort"
 	"strings"
+	"time"
 
 	"github.com/AdguardTeam/golibs/hostsfile"
 )
